@@ -6,7 +6,7 @@ MANIFEST = {
     "text": "Theorems (Coq, every number of callers, every interleaving of the LTS whose labels are the ABT_VERIF hook records): "
             "mutual exclusion, holder = lock word, trylock succeeds iff free, no lost wakeup (a queued caller implies mutex held or "
             "broadcast owed; a completed unlock leaves nobody queued), recursion (owner holds while nesting_cnt>0; only the unlock "
-            "at nesting 0 releases). Tie: real multi-threaded executions (ULT/external/tasklet callers, 1-4 streams, static and "
+            "at nesting 0 releases). Tie: real multi-threaded executions (ULT/external/tasklet callers, 1-4 streams with private or one shared pool, static and "
             "dynamic, recursive mutexes) are recorded by the hooks as a totally ordered history of atomic actions and replayed "
             "through the extracted step function; every event must be enabled; independent monitors (two holders, lost update, "
             "stuck caller) run on every execution. Starvation-freedom under barging and fair scheduling are not claimed (partial).",
@@ -26,6 +26,9 @@ def gen_scenario(rng, big=False):
     # a mutex is "spin-safe" if no critical section on it contains a yield or a blocking lock
     spin_safe = [rng.random() < 0.4 for _ in range(nm)]
     lines = ["SEED %d" % rng.randint(1, 10**9), "NES %d" % nes, "WATCHDOG 20"]
+    if nes >= 2 and rng.random() < 0.5:
+        # the secondary streams serve one shared pool: blocked ULTs are resumed on other streams
+        lines.append("SHARED 1")
     for i, k in enumerate(kinds):
         lines.append("MUTEX %d %s" % (i, k))
     for t in range(nthr):
